@@ -6,6 +6,7 @@ use std::rc::Rc;
 use std::cmp::Ordering;
 use std::collections::{BTreeMap, BTreeSet};
 use vstd::std_specs::cmp::PartialEqSpec;
+use vstd::std_specs::iter::IteratorSpec;
 
 verus! {
 
